@@ -424,6 +424,14 @@ class Ctx:
   def le(self, a, b): return a <= b
   def lt(self, a, b): return a < b
 
+  def is_int(self, x):
+    """x (a Sym) is integer valued."""
+    if isinstance(x, SymInt): return True
+    if isinstance(x, Sym):
+      if x.c is not None: return x.c.denominator == 1
+      return SymBool(z3.IsInt(x.term()))
+    return Fraction(x).denominator == 1
+
   def observe(self, label, value):
     self.observations.append((label, value))
 
@@ -646,6 +654,10 @@ class ConcreteCtx:
 
   def lt(self, a, b):
     return a < b
+
+  def is_int(self, x):
+    if isinstance(x, float): return abs(x - round(x)) < 1e-9
+    return Fraction(x).denominator == 1
 
   def observe(self, label, value):
     self.observations.append((label, value))
